@@ -115,6 +115,12 @@ add("C18", True, "E2-enum", "exploration",
     "Exhaustive over the stated grammar only. Either answer is accepted for entity kind topic when exactly one of read/write access control is on and no permission settles it, and for queries without partitions against rules with partition expressions (the statement leaves both open). Built with cargo feature security.",
     "5.18")
 
+add("C17", True, "E2-enum", "exploration",
+    "bounded-exhaustive enumeration of governance documents x topics x submessage kinds x entity-id forms x protection wrappers and secure-submessage sequences, injected into a real MessageReceiver with real SecurityPlugins keyed through the real handshake and key exchange",
+    "Two participants are brought up from signed fixture documents (RTPS protection NONE / SIGN / ENCRYPT / with origin authentication), authenticated and keyed; the receiver owns a real MessageReceiver with real reliable Readers for topics of every metadata x data protection kind, the exempt built-in topics (DCPSParticipant, DCPSParticipantStatelessMessage, DCPSParticipantVolatileMessageSecure) and the non-exempt DCPSPublication, and registered writers. For every topic x {DATA, DATAFRAG, HEARTBEAT, GAP, ACKNACK, NACKFRAG} x {explicit id, ENTITYID_UNKNOWN} x wrapper {plain, as required, message / submessage / payload level left out, submessage protection made with another topic's keys, group without postfix / prefix, spliced plain body, two bodies, empty group, plain submessage in front of SRTPS_PREFIX} the datagram is built with the sender's real plug-ins and injected. Oracle on reader state, TopicCache, ACKNACK hand-over: anything lacking a required protection has no effect on the protected endpoint; correctly protected traffic and plain traffic for unprotected topics arrive. In addition every sequence of <= 4 (thorough 5) pieces {SEC_PREFIX, protected body, SEC_POSTFIX, plain copy, INFO_TS, plain DATA of an open topic} containing the plain copy, as one datagram and split in two at every point (the secure-receiver state machine): the plain copy never arrives, no panic.",
+    "Exhaustive over the stated alphabets only. The sender is an authenticated peer (strongest plaintext sender). Built with cargo feature security.",
+    "5.17")
+
 NOT_YET = {}
 
 def main():
